@@ -36,7 +36,10 @@ IMPORTS = "Base Resume"
 RULE = ("random DAG workflows of 2-8 nodes (function nodes with 1-3 inputs fed by constants, earlier siblings or macro "
         "parameters; macros nested up to depth 2 with 0-3 parameters, each used once); per graph EVERY leaf as the single "
         "failing node, some pairs/triples of failing nodes (several recoveries in sequence), and EVERY node (leaf, macro, "
-        "workflow) as the checkpointing node under the protocols all/stated/root, some with a failing node as well. "
+        "workflow) as the checkpointing node under the protocols all/stated/root, some with a failing node as well; all "
+        "attempts of one history share ONE directory; some nodes return their value wrapped in a closure (only cloudpickle "
+        "can store it), incl. directed chains that fail before and again after such a node completed, so that recovery "
+        "files of both pickle flavours follow each other. "
         "Non-trivial: at least one function completed before the cut and at least one after; distinct by content.")
 TRUSTED = ["harness FIFO simulation of the visiting order of each composite (validated by ordered call logs and image contents)",
            "checkpoint cut = copy of the checkpoint file taken inside the storage back end right after it is written"]
@@ -54,19 +57,35 @@ from pyiron_workflow.nodes.macro import as_macro_node  # noqa: E402
 from pyiron_workflow.storage import PickleStorage  # noqa: E402
 
 
+CLO = 1000      # a leaf with k >= CLO hands its number on wrapped in a closure: plain pickle cannot store it
+
+
+def _unwrap(v):
+    return v() if callable(v) else v
+
+
+def _wrap(k, v):
+    if k < CLO:
+        return v
+
+    def held():     # a closure over v: fine for cloudpickle, impossible for plain pickle
+        return v
+    return held
+
+
 @as_function_node("y")
 def K1(tag, k, a):
-    return nodes.chk(tag, k, [a])
+    return _wrap(k, nodes.chk(tag, k, [_unwrap(a)]))
 
 
 @as_function_node("y")
 def K2(tag, k, a, b):
-    return nodes.chk(tag, k, [a, b])
+    return _wrap(k, nodes.chk(tag, k, [_unwrap(a), _unwrap(b)]))
 
 
 @as_function_node("y")
 def K3(tag, k, a, b, c):
-    return nodes.chk(tag, k, [a, b, c])
+    return _wrap(k, nodes.chk(tag, k, [_unwrap(a), _unwrap(b), _unwrap(c)]))
 
 
 KCLS = {1: K1, 2: K2, 3: K3}
@@ -306,7 +325,7 @@ class Snap(PickleStorage):
 
 def _slot(v):
     from pyiron_workflow.channels import NOT_DATA
-    return "nd" if v is NOT_DATA else int(v)
+    return "nd" if v is NOT_DATA else int(_unwrap(v))
 
 
 def snap(tree, root):
@@ -387,20 +406,20 @@ def _all_nodes(tree, root):
 
 
 def _rounds(tree, cur, cap, workdir):
+    """attempt after attempt in ONE directory, as a user would: the recovery file of a later failure has to
+    replace that of an earlier one"""
     from pyiron_workflow import Workflow
-    tags = leaf_paths(tree)
     out = []
+    d = tempfile.mkdtemp(prefix="r", dir=workdir)
+    os.chdir(d)
+    rec = Path(d) / "wf" / "recovery"
     for _ in range(cap):
-        d = tempfile.mkdtemp(prefix="r", dir=workdir)
-        os.chdir(d)
         nodes.CALLS.clear()
         v = _verdict(cur.run)
         calls = [[t, all(x >= 0 for x in a)] for t, a in nodes.CALLS]
-        files = _files()
-        rnd = {"verdict": v, "calls": calls, "files": files, "mem": snap(tree, cur), "loaded": None}
+        rnd = {"verdict": v, "calls": calls, "files": _files(), "mem": snap(tree, cur), "loaded": None}
         out.append(rnd)
-        rec = Path(d) / "wf" / "recovery"
-        if not (rec.with_suffix(".pckl").exists() or rec.with_suffix(".cpckl").exists()):
+        if v == "ok" or not (rec.with_suffix(".pckl").exists() or rec.with_suffix(".cpckl").exists()):
             break
         loaded = Workflow("wf", autoload=None)
         err = _verdict(lambda: loaded.load(filename=rec))
@@ -476,14 +495,15 @@ def run_impl(case):
 
 # ---- what the model is compared with ------------------------------------------------------------------
 def _save_paths(tree, files):
-    """recovery files -> model paths of the nodes they were written for; anything else stays a name"""
+    """recovery files -> [model path of the node they were written for, flavour]; anything else stays a name"""
     out = []
     for f in files:
         parts = f.split("/")
-        if parts[-1] == "recovery.pckl" and parts[0] == "wf" and all(x[:1] == "n" and x[1:].isdigit() for x in parts[1:-1]):
+        if parts[-1] in ("recovery.pckl", "recovery.cpckl") and parts[0] == "wf" and \
+                all(x[:1] == "n" and x[1:].isdigit() for x in parts[1:-1]):
             sp = [int(x[1:]) for x in parts[1:-1]]
             try:
-                out.append(mpath(tree, sp))
+                out.append([mpath(tree, sp), parts[-1].split(".")[1]])
                 continue
             except (KeyError, ValueError, IndexError):
                 pass
@@ -547,6 +567,7 @@ def _check_rounds(case, o, done0, first_sig):
     nleaf = len(lp)
     done = set(done0)
     rs = o["rounds"]
+    prev_files = []
     for ri, r in enumerate(rs):
         raised = [t for t, ok in r["calls"] if not ok]
         okc = [t for t, ok in r["calls"] if ok]
@@ -559,8 +580,8 @@ def _check_rounds(case, o, done0, first_sig):
         if r["verdict"] == "ok":
             if raised:
                 return "swallowed: a function raised but the run returned normally"
-            if r["files"]:
-                return f"stray-files: a run that returned normally left {r['files']}"
+            if r["files"] != prev_files:
+                return f"stray-files: a run that returned normally changed the files from {prev_files} to {r['files']}"
             if ri != len(rs) - 1:
                 return "harness: rounds after a normal return"
             break
@@ -570,11 +591,14 @@ def _check_rounds(case, o, done0, first_sig):
             return (f"{sig}: run {ri + 1} after restoring ended in {r['verdict']} although no function raised "
                     f"(running flags in the restored graph: {sorted(p for p, x in _flat(tree, r['mem']).items() if x[3])})")
         if r["files"] not in (["wf/recovery.pckl"], ["wf/recovery.cpckl"]):
-            return f"recovery-misplaced: after the failed run the files are {r['files']}, expected exactly wf/recovery.pckl"
+            return (f"recovery-misplaced: after the failed run {ri + 1} the files are {r['files']}, expected exactly one "
+                    f"recovery file, for the workflow")
+        prev_files = r["files"]
         if r["loaded"] == "unloadable":
             return f"recovery-unloadable: loading the recovery file raised {r['load_error']}"
         if r["loaded"] is None or not _same_image(r["mem"], r["loaded"]):
-            return "image-differs: the graph loaded from the recovery file is not the graph as it stood at the failure"
+            return (f"image-differs: the graph loaded from the recovery file after failure {ri + 1} is not the graph as it "
+                    f"stood at that failure")
         fl = _flat(tree, r["loaded"])
         if any(x[3] for x in fl.values()):
             return "image-running: a node is marked running in the recovery image"
@@ -703,6 +727,44 @@ def gen_tree(rng):
     return ["M", 0, [], kids]
 
 
+def with_clo(tree, rng, prob):
+    """some leaves hand their value on as a closure (k >= CLO): their image needs the cloudpickle flavour"""
+    t = json.loads(json.dumps(tree))
+    for p, s in walk(t):
+        if s[0] == "L" and rng.random() < prob:
+            s[1] = CLO + s[1] % 100
+    return t
+
+
+def gen_two_failures(rng):
+    """a chain (with side branches) failing first BEFORE a closure-valued node completes and, after the resume,
+    again AFTER it: the second recovery file has the other pickle flavour than the first"""
+    n = rng.randint(4, 7)
+    i1 = rng.randrange(1, n - 2)
+    ic = rng.randrange(i1 + 1, n - 1) if rng.random() < 0.7 else i1      # the closure node (may be the first failing one)
+    i2 = rng.randrange(ic + 1, n)
+    kids = []
+    for i in range(n):
+        ins = [["u", i - 1]] if i else []
+        if i >= 2 and rng.random() < 0.4:
+            ins.append(["u", rng.randrange(i - 1)])
+        ins.append(["c", -rng.randint(1, 9) if i in (i1, i2) else rng.randint(0, 30)])
+        if len(ins) < 3 and rng.random() < 0.3:
+            ins.append(["c", rng.randint(0, 30)])
+        kids.append(["L", (CLO if i == ic else 0) + rng.randint(0, 99), ins])
+    if rng.random() < 0.4:      # wrap the tail into a macro
+        cutat = rng.randrange(1, n - 1)
+        tail = kids[cutat:]
+        for j, k in enumerate(tail):
+            k[2] = [(["p", 0] if x[1] == cutat - 1 else ["c", rng.randint(0, 30)]) if x[0] == "u" and x[1] < cutat
+                    else (["u", x[1] - cutat] if x[0] == "u" else x) for x in k[2]]
+        if sum(1 for k in tail for x in k[2] if x == ["p", 0]) == 1:
+            kids = kids[:cutat] + [["M", len(tail) - 1, [["u", cutat - 1]], tail]]
+        else:
+            return gen_two_failures(rng)
+    return {"kind": "fail", "tree": ["M", 0, [], kids]}
+
+
 def with_bad(tree, paths, rng):
     t = json.loads(json.dumps(tree))
     for p in paths:
@@ -721,6 +783,10 @@ def cases_of(rng, tree, rich):
     for _ in range(2 if rich else 1):
         if len(lps) >= 2:
             out.append({"kind": "fail", "tree": with_bad(tree, rng.sample(lps, min(len(lps), rng.choice([2, 2, 3]))), rng)})
+    if len(lps) >= 2:       # the same with closure-valued nodes: recovery files of both pickle flavours in one directory
+        for _ in range(3 if rich else 2):
+            out.append({"kind": "fail", "tree": with_bad(with_clo(tree, rng, 0.4), rng.sample(lps, min(len(lps), rng.choice([2, 3]))), rng)})
+        out.append({"kind": "ckpt", "tree": with_clo(tree, rng, 0.4), "cut": rng.choice(allp), "proto": "all"})
     for p in allp:
         out.append({"kind": "ckpt", "tree": tree, "cut": p, "proto": "all"})
     for p in rng.sample(allp, min(len(allp), 3 if rich else 2)):
@@ -742,6 +808,12 @@ def generate(ctx):
             if k not in seen:
                 seen.add(k)
                 cases.append(c)
+    for _ in range(ctx.n(60, 600)):
+        c = gen_two_failures(rng)
+        k = json.dumps(c, sort_keys=True)
+        if k not in seen:
+            seen.add(k)
+            cases.append(c)
     return cases
 
 
@@ -790,7 +862,7 @@ def shrink_candidates(case):
 
 
 def distribution(results):
-    d = {"fail": 0, "ckpt": 0, "proto": {}, "depth_of_cut_or_failure": {}, "rounds": {}, "with_macros": 0, "nocut": 0,
+    d = {"fail": 0, "ckpt": 0, "flavour_sequences": {}, "proto": {}, "depth_of_cut_or_failure": {}, "rounds": {}, "with_macros": 0, "nocut": 0,
          "nodes": {}}
     for c, enc, v, o in results:
         d[c["kind"]] += 1
@@ -810,4 +882,8 @@ def distribution(results):
         if isinstance(o, dict) and "rounds" in o:
             k = len(o["rounds"])
             d["rounds"][k] = d["rounds"].get(k, 0) + 1
+            fl = ">".join(r["files"][0].rsplit(".", 1)[1] if len(r["files"]) == 1 else str(len(r["files"]))
+                          for r in o["rounds"] if r["verdict"] != "ok")
+            if fl:
+                d["flavour_sequences"][fl] = d["flavour_sequences"].get(fl, 0) + 1
     return d
